@@ -368,6 +368,12 @@ func (si *schemaInfo) elemFromGo(fd protoreflect.FieldDescriptor, r reflect.Valu
 	return scalarFromGo(fd, r)
 }
 
+// presScalar: a singular scalar with explicit presence outside a oneof (proto2 optional / required; Go field *T, or []byte
+// where nil = unset): the value 'n' stands for "unset", any other for "set to" (zero values included).
+func presScalar(fd protoreflect.FieldDescriptor) bool {
+	return fd.Message() == nil && !fd.IsList() && !fd.IsMap() && fd.HasPresence() && realOneofIndex(fd) < 0
+}
+
 // toGo builds *T from a message value.
 func (si *schemaInfo) toGo(mi *msgInfo, v *V) reflect.Value {
 	p := reflect.New(mi.goType)
@@ -403,6 +409,13 @@ func (si *schemaInfo) toGo(mi *msgInfo, v *V) reflect.Value {
 			w := reflect.New(fi.wrapper.Elem())
 			w.Elem().Field(0).Set(si.elemToGo(fd, sv.P, w.Elem().Field(0).Type()))
 			f.Set(w)
+		case f.Kind() == reflect.Ptr && fd.Message() == nil:
+			// explicit-presence scalar (*T): nil = unset
+			if sv.K != 'n' {
+				pv := reflect.New(f.Type().Elem())
+				pv.Elem().Set(scalarToGo(fd, sv, f.Type().Elem()))
+				f.Set(pv)
+			}
 		default:
 			f.Set(si.elemToGo(fd, sv, f.Type()))
 		}
@@ -454,6 +467,12 @@ func (si *schemaInfo) fromGo(mi *msgInfo, p reflect.Value) *V {
 				continue
 			}
 			out.L = append(out.L, &V{K: 's', P: si.elemFromGo(fd, f.Elem().Elem().Field(0))})
+		case f.Kind() == reflect.Ptr && fd.Message() == nil:
+			if f.IsNil() {
+				out.L = append(out.L, vNil)
+			} else {
+				out.L = append(out.L, si.elemFromGo(fd, f.Elem()))
+			}
 		default:
 			out.L = append(out.L, si.elemFromGo(fd, f))
 		}
@@ -659,6 +678,8 @@ func (si *schemaInfo) fromPR(mi *msgInfo, m protoreflect.Message) *V {
 			} else {
 				out.L = append(out.L, vNil)
 			}
+		case presScalar(fd) && !m.Has(fd):
+			out.L = append(out.L, vNil)
 		default:
 			out.L = append(out.L, scalarFromPR(fd, m.Get(fd)))
 		}
@@ -722,6 +743,8 @@ func (si *schemaInfo) normV(mi *msgInfo, v *V) *V {
 			} else {
 				out.L = append(out.L, elem(fd, sv))
 			}
+		case presScalar(fd) && sv.K == 'n':
+			out.L = append(out.L, vNil) // unset is not the empty string
 		default:
 			out.L = append(out.L, elem(fd, sv))
 		}
@@ -749,7 +772,7 @@ func (si *schemaInfo) emptyV(mi *msgInfo) *V {
 	out := &V{K: 'm'}
 	for _, fi := range mi.fields {
 		fd := fi.fd
-		if fd.IsMap() || fd.IsList() || fi.oneofIdx >= 0 || fd.Kind() == protoreflect.MessageKind {
+		if fd.IsMap() || fd.IsList() || fi.oneofIdx >= 0 || fd.Kind() == protoreflect.MessageKind || presScalar(fd) {
 			out.L = append(out.L, vNil)
 		} else {
 			out.L = append(out.L, zeroScalarV(fd))
